@@ -328,6 +328,55 @@ def replay_chain(case):
     return {"ok": status != "mismatch", "outcome": status, "detail": detail}
 
 
+class InjectedFault(OSError):
+    pass
+
+
+def fault_retry(case):
+    """a transient read error in the middle of a load, then the same and other selections again:
+    after the exception every selection must still equal the in-memory image"""
+    from mc import vfs
+
+    tc, L, P, rpc = case["type"], case["L"], case["P"], case["rpc"]
+    prod, da, twin, fname, im, ref = opened(tc, L, P, rpc)
+    fails, n = [], 0
+    warm = [["isel", ["i", 0], None], ["isel", ["s", None, None, None], None]]
+    victims = [["isel", ["i", L - 1], None], ["isel", ["s", 1, None, None], None], ["isel", ["s", None, None, 2], None], ["isel", ["a", [L - 1, 0]], None]]
+    after = [["isel", ["i", L - 1], None], ["isel", ["s", None, None, None], None], ["isel", ["i", 1 % L], ["i", 0]], ["isel", ["s", None, None, -1], None]]
+    for w in warm:
+        for v in victims:
+            for k in range(1, 4):  # the k-th read event of the victim load fails
+                prod2, da2, twin2, _, _, _ = prod, da, twin, None, None, None
+                try:
+                    outcome_of(da, [w])  # a successful load first (state from an earlier read)
+                    count = [0]
+
+                    def hook(ev, k=k, count=count):
+                        if ev[0] == "read" and ev[1].endswith("/" + fname):
+                            count[0] += 1
+                            if count[0] == k:
+                                raise InjectedFault("injected transient read error")
+
+                    vfs.HOOK[0] = hook
+                    try:
+                        r = outcome_of(da, [v])
+                    finally:
+                        vfs.HOOK[0] = None
+                    injected = count[0] >= k
+                    if injected and r[0] != "raise":
+                        fails.append({"sig": {"kind": "fault-swallowed"}, "detail": f"{tc} {L}x{P} rpc={rpc}: read error during {v} was swallowed, result {r[1]['shape']}", "case": case})
+                    for a in [v] + after:
+                        n += 1
+                        status, detail, extra = compare(da, twin, [a], ref)
+                        if status == "mismatch" and not extra.get("xarray_ref_same"):
+                            sig = {"kind": "after-fault-mismatch", "op": a[1][0]}
+                            if core.jkey(sig) not in {core.jkey(f["sig"]) for f in fails}:
+                                fails.append({"sig": sig, "detail": f"{tc} {L}x{P} rpc={rpc}: after {w}, a read error at read #{k} of {v}, then {a}: {detail}", "case": case})
+                finally:
+                    vfs.HOOK[0] = None
+    return {"ok": not fails, "failures": fails, "outcome": "fault-retry-ok" if not fails else fails[0]["sig"]["kind"], "nontrivial": True, "n": n}
+
+
 def batches(tc, L, P, rpc, ops, size=400):
     for i in range(0, len(ops), size):
         yield {"type": tc, "L": L, "P": P, "rpc": rpc, "ops": ops[i : i + size]}
@@ -382,7 +431,8 @@ def run(res, tier, seed):
         "depth 1: full per-axis alphabet (ints, slices with bounds None|-n-1..n+1 and steps None|+-1|+-2|+-3, int arrays len<=2 + [],"
         " all boolean masks) on rows x (all | 8 representative) column expressions, columns alone with the full alphabet,"
         " getitem/sel spellings and pointwise pairs; depth 2-3: BFS over chains of single-axis steps, state = effective"
-        " selection (dims, shape, selected values of a position-coded twin). A batch is non-trivial if at least one"
+        " selection (dims, shape, selected values of a position-coded twin); fault-retry: a transient read error injected at the 1st/2nd/3rd"
+        " read of a load (after an earlier successful load), then the same and other selections must still equal the twin. A batch is non-trivial if at least one"
         " expression is accepted by the in-memory twin (out-of-bounds expressions must raise on both sides)."
     )
     res.assumptions = ["xarray's lazy indexing adapter is trusted to decompose indexers; images <= 5x3"]
@@ -400,6 +450,12 @@ def run(res, tier, seed):
         res.record(case, out, order=10**6 + idx)
         states += out["states"]
         transitions += out["transitions"]
+    fr = [{"fn": "fault_retry", "type": tc, "L": L, "P": P, "rpc": rpc} for tc, L, P in (("IU2", 5, 2), ("C*8", 4, 3)) for rpc in (1, 2, 3, L + 1)]
+    n_fault = 0
+    for idx, case, out in core.pool_map(__name__, "fault_retry", fr, chunksize=1):
+        res.record(case, out, order=2 * 10**6 + idx)
+        n_fault += out["n"]
+    res.extra["selections_after_injected_read_error"] = n_fault
     res.states = states
     res.transitions = transitions
     res.traces = n_expr + transitions
